@@ -194,7 +194,7 @@ def build(spec):
 def obligations(tier, seed):
     out = []
     q = tier == "quick"
-    und = [("n4q", 3, False)] if q else [("n4", 3, True), ("str", 2, False)]
+    und = [("n4q", 3, False)] if q else [("n4q", 3, False), ("n4", 3, True), ("str", 2, False)]
     k = 0
     for cname, nfix, rev in und:
         for fixed in itertools.product([0, 1], repeat=nfix):
@@ -202,13 +202,13 @@ def obligations(tier, seed):
                 k += 1
                 out.append({"family": what, "cands": cname, "fixed": list(fixed), "what": what, "reverse": rev,
                             "build": ("add", "remove", "readd")[k % 3], "rewire": k % 2 == 0})
-            for dist in ("intersection", "jaccard"):
+            for dist in ("intersection", "jaccard") if cname != "n4" else ("intersection",):
                 k += 1
                 out.append({"family": "line", "cands": cname, "fixed": list(fixed), "what": "line", "distance": dist,
                             "reverse": rev, "build": ("remove", "add", "readd")[k % 3], "rewire": k % 2 == 1})
     for cname, nfix in ([("n4q", 3)] if q else [("n4q", 3), ("n4", 4)]):
         for fixed in itertools.product([0, 1], repeat=nfix):
-            for dist in ("intersection", "jaccard"):
+            for dist in ("intersection", "jaccard") if cname != "n4" else ("intersection",):
                 k += 1
                 out.append({"family": "dline", "cands": cname, "fixed": list(fixed), "what": "dline", "distance": dist,
                             "build": ("add", "remove")[k % 2], "rewire": k % 3 == 0})
